@@ -89,6 +89,7 @@ type schemaRenderer struct {
 	t         *dtree
 	o         renderOpts
 	templates []string
+	tplByBody map[string]string
 }
 
 func jstr(s string) string { b, _ := json.Marshal(s); return string(b) }
@@ -178,8 +179,18 @@ func (r *schemaRenderer) node(i int) string {
 	xp := r.xpathPart(i)
 	// a template reference site can carry only the xpath; const has none. Fields without xpath render as {"xpath": "."}
 	if r.o.templates && t.Kind[i-1] != "const" {
-		name := fmt.Sprintf("tpl%d", i)
-		r.templates = append(r.templates, jstr(name)+": {"+strings.Join(r.bodyOrSelf(i), ", ")+"}")
+		// one template per distinct body: declarations that differ only in their xpath reference the same template from
+		// several sites, each with its own anchor (or none)
+		body := strings.Join(r.bodyOrSelf(i), ", ")
+		name, seen := r.tplByBody[body]
+		if !seen {
+			name = fmt.Sprintf("tpl%d", i)
+			if r.tplByBody == nil {
+				r.tplByBody = map[string]string{}
+			}
+			r.tplByBody[body] = name
+			r.templates = append(r.templates, jstr(name)+": {"+body+"}")
+		}
 		parts := []string{`"template": ` + jstr(name)}
 		if xp != "" {
 			parts = append([]string{xp}, parts...)
@@ -336,6 +347,7 @@ func c02Replay(args []string) int {
 			if !ok {
 				continue
 			}
+			inlineOK := false
 			for vi, o := range []renderOpts{{}, {templates: true}, {dynamic: true}, {names: true}} {
 				ck := fmt.Sprint(format, vi, hashOf(c.T))
 				ce := cache[ck]
@@ -353,11 +365,24 @@ func c02Replay(args []string) int {
 					continue
 				}
 				if e != nil {
+					if vi == 1 && inlineOK {
+						// "a template reference behaves as its body inlined at the reference site": the inlined rendering of this
+						// very tree was accepted, the rendering with references is refused - real-code behaviour, not a generator fault
+						nviol++
+						if nviol <= 40 {
+							violation("C02", "eval-template-rejected", fmt.Sprintf("the schema with template references is rejected (%v) while the same declarations inlined are accepted", e),
+								M{"format": format, "schema": schema, "input": in, "expected": c.Exp, "actual": []string{"NEWSCHEMA", e.Error()}, "variant": vi})
+						}
+						continue
+					}
 					rejected++
 					if rejected <= 3 {
 						emit(M{"kind": "schema_rejected", "schema": schema, "err": e.Error()})
 					}
 					continue
+				}
+				if vi == 0 {
+					inlineOK = true
 				}
 				out := runTranscript(sch, strings.NewReader(in), RunOpts{MaxReads: 4, Ext: evalExt})
 				sum.eval(c.Nt, M{"s": schema, "i": in})
